@@ -60,7 +60,18 @@ class Plan:
         self.ebpf, self.am = ebpf_mod, arraymap_mod
         self.map = None
         self.info = {}
-        self._walk_stmt(stmt)
+        if stmt is not None:
+            self._walk_stmt(stmt)
+
+    def add_expr(self, path, expr):
+        self._walk(path, expr)
+
+    def add_var(self, storage, fmt):
+        return self._var(storage, fmt)
+
+    def emit_inits(self, e):
+        for view, no, name in self.reginits:
+            getattr(e, view)[no] = getattr(e, name)
 
     def _var(self, storage, fmt):
         name = f"{'l' if storage == 'L' else 'm'}{len(self.vars)}"
@@ -234,6 +245,18 @@ class Ref:
             return self.fitU(a)
         return And(self.fitS(a), self.fitU(a))
 
+    def both(self, a, b):
+        """precondition of a two-operand width-sensitive operation: both
+        operands fit W in the reading the operation is typed with (signed if
+        either operand is signed; both readings if the typing is ambiguous)"""
+        S = And(self.fitS(a), self.fitS(b))
+        U = And(self.fitU(a), self.fitU(b))
+        if a.signed is None or b.signed is None:
+            return And(S, U), S, U
+        if a.signed or b.signed:
+            return S, S, U
+        return U, S, U
+
     def ev(self, path, x):
         k = x[0]
         if k == "bin":
@@ -293,8 +316,15 @@ class Ref:
             # on infinite two's complement integers the result mod 2^64 is
             # f(a mod 2^64, b mod 2^64) whatever the readings
             v = f(a.v, b.v)
-            return Val(v, And(a.fs, b.fs), And(a.fu, b.fu),
-                       a.signed if a.signed == b.signed else None)
+            if op == "&":
+                # typing of & results is not defined by the statement (the
+                # generator types them unsigned): ambiguous unless both
+                # operands are unsigned
+                sg = False if (a.signed is False and b.signed is False) \
+                    else None
+            else:
+                sg = a.signed if a.signed == b.signed else None
+            return Val(v, And(a.fs, b.fs), And(a.fu, b.fu), sg)
         if op == "<<":
             W = self.W
             self.pre.append(And(Or(b.fs, b.fu), ULT(b.v, bv(W))))
@@ -312,11 +342,8 @@ class Ref:
                        If(S, v >= 0, BoolVal(True)), a.signed)
         if op in ("//", "%"):
             self.sensitive += 1
-            S = And(self.fitS(a), self.fitS(b))
-            U = And(self.fitU(a), self.fitU(b))
-            self.pre.append(Or(S, U))
-            self.pre.append(self.own(a))
-            self.pre.append(self.own(b))
+            p, S, U = self.both(a, b)
+            self.pre.append(p)
             self.pre.append(b.v != 0)
             ch = z3.Bool(f"round_trunc_{path}")
             self.choices.append(ch)
